@@ -23,6 +23,13 @@ fn main() {
     if tier == "--replay" {
         std::process::exit(replay::run(args.get(3).map(|s| s.as_str()).unwrap_or("")));
     }
+    // checks that feed extreme operands run under a supervisor: a child killed by a signal
+    // (allocation failure, stack overflow: the implementation aborting the process) is a verdict
+    // about the case that does it, found by re-running the cases the workers had noted
+    const CRASH_ISOLATED: &[&str] = &["C09"];
+    if CRASH_ISOLATED.contains(&id) && (tier == "quick" || tier == "thorough") && std::env::var("SSLVERIF_JOURNAL").is_err() {
+        std::process::exit(supervise(id, tier));
+    }
     if id == "RUN" {
         // sslverif RUN <program text>: parse and run one program with the stdlib (debugging aid)
         let text = tier.to_string();
@@ -85,4 +92,65 @@ fn main() {
         }
     };
     std::process::exit(code);
+}
+
+
+fn supervise(id: &str, tier: &str) -> i32 {
+    use serde_json::{json, Value};
+    let exe = std::env::current_exe().expect("own path");
+    let dir = report::verif_root().join("replays").join(format!(".journal-{}", std::process::id()));
+    let _ = std::fs::remove_dir_all(&dir);
+    std::fs::create_dir_all(&dir).expect("journal directory");
+    let status = std::process::Command::new(&exe).args([id, tier]).env("SSLVERIF_JOURNAL", &dir).status().expect("spawn the check");
+    if let Some(code) = status.code() {
+        let _ = std::fs::remove_dir_all(&dir);
+        return code;
+    }
+    eprintln!("the process running {id} {tier} was killed ({status}); looking for the case that does it");
+    let mut cases: Vec<Value> = Vec::new();
+    if let Ok(rd) = std::fs::read_dir(&dir) {
+        for e in rd.flatten() {
+            if let Ok(text) = std::fs::read_to_string(e.path()) {
+                if let Ok(v) = serde_json::from_str::<Value>(&text) {
+                    if !cases.contains(&v) {
+                        cases.push(v);
+                    }
+                }
+            }
+        }
+    }
+    let mut rep = report::Report::new(id, tier);
+    let mut probes = 0u64;
+    let mut samples: Vec<Value> = Vec::new();
+    for (k, case) in cases.iter().enumerate() {
+        let path = dir.join(format!("probe-{k}.json"));
+        let body = json!({"property": id, "sig": "crash-probe", "case": case});
+        std::fs::write(&path, serde_json::to_string(&body).unwrap()).expect("write probe");
+        let st = std::process::Command::new(&exe).args([id, "--replay"]).arg(&path).stdout(std::process::Stdio::null()).stderr(std::process::Stdio::null()).status().expect("spawn probe");
+        probes += 1;
+        if samples.len() < 3 {
+            samples.push(case.clone());
+        }
+        if st.code().is_none() {
+            let text = case["text"].as_str().or(case["program"].as_str()).unwrap_or("").chars().take(80).collect::<String>();
+            let mut detail = case.clone();
+            if let Some(o) = detail.as_object_mut() {
+                o.insert("observed".into(), json!(format!("the process running this case is killed ({st}): no value, no error")));
+                o.insert("expected".into(), json!("a value or a documented error"));
+            }
+            rep.violation(report::Violation { sig: format!("{id}|process-killed|{}", text.replace('|', "/")), detail });
+        }
+    }
+    let _ = std::fs::remove_dir_all(&dir);
+    if rep.is_empty() {
+        eprintln!("MACHINERY ERROR: the check was killed ({status}) and none of the {probes} noted cases reproduces it");
+        return 2;
+    }
+    rep.finish(
+        "model_checking",
+        json!({"states": probes, "transitions": probes, "traces_validated_against_impl": probes, "samples": samples, "exhaustive": false,
+               "rule": "the enumeration was cut short: the implementation killed the checking process; the cases the worker threads had noted were re-run one per process, and those that kill their process are reported",
+               "run_killed": format!("{status}")}),
+        &["crash isolation: the verdict names the cases that kill a fresh process on their own"],
+    )
 }
